@@ -300,6 +300,10 @@ def geometry_alphabet(tier):
 
 
 def run(ctx):
+    from .. import pipeline
+
+    # wiring: the run's stored columns are this stage applied to the run's stored columns (see nssmc/pipeline.py)
+    pipeline.run_in(ctx, ['geometry'], ('B',))
     tier = ctx.tier
     # time grid: every N in 1..256
     for T in (3600.0, 86400.0, 1.0e6 / 3.0):
@@ -384,6 +388,10 @@ def run(ctx):
 
 
 def replay(case):
+    if isinstance(case, dict) and case.get("kind") == "pipeline":
+        from .. import pipeline
+
+        return pipeline.replay(case)
     k = case["kind"]
     if k == "grid":
         return judge_timegrid(case["N"], case["T"])
